@@ -29,7 +29,8 @@ CHECK = {
     "assumptions": [
         "surface identity matters only through the numeric LocalSurfaceId order: surfaces are "
         "introduced in canonical order and two labellings ({0,1,2,3} and the sparse, non-monotone "
-        "{5,1,6,3}) are run",
+        "{5,1,6,3}) are run; a third, strictly decreasing labelling {7,4,2,0} (first surface = largest "
+        "id) is run one level shallower for the insert transitions and the encoder checks only",
         "replace_and_simplify is applied once per tree (a second call trips its own debug "
         "assertions on literal True nodes)",
         "transform_negated_joins is applied to alias-free insert-built trees and to the aliased "
@@ -48,9 +49,11 @@ CHECK = {
     ],
     "bounds": {"exchange_strings": "every tree of the search is also printed with build_infix_string after exchange(node, True|False) for every node, before any simplification (constants inside joins)",
                "quick": {"effective_inserts_per_labelling": 6, "labellings": 2,
+                         "third_labelling": "{7,4,2,0}, 5 effective inserts, encoders (postfix plain + remapped, flagger, sense, string) only",
                          "surfaces": 4, "operands": 3,
                          "chain_stack_depths": "5..40 and M-2..M+8 (16 values), x2 operators x2 negation patterns x2 labellings"},
                "thorough": {"effective_inserts_per_labelling": 7, "labellings": 2,
+                            "third_labelling": "{7,4,2,0}, 6 effective inserts (asan part: 4), encoders only",
                             "surfaces": 4, "operands": 3, "asan_part_effective_inserts": 5,
                             "chain_stack_depths": "as quick (also in the asan part)",
                             "note": "labelling 1: the depth-7 leaves get the encoder checks only "
